@@ -366,7 +366,7 @@ def names(draw, n, alphabet=NAME_ALPHABET, max_size=7):
 
 
 @st.composite
-def group_defs(draw, labels=(1, 2, 3, 4, 5, 6), max_groups=4, name_alphabet=NAME_ALPHABET):
+def group_defs(draw, labels=(1, 2, 3, 4, 5, 6, 9, 10, 11, 17, 19, 33, 200), max_groups=4, name_alphabet=NAME_ALPHABET):
     """Random partition of a subset of `labels` into 1-4 groups of kinds plain/merge/single."""
     ng = draw(st.integers(1, max_groups))
     perm = list(draw(st.permutations(list(labels))))
